@@ -40,7 +40,9 @@ Inductive ans :=
 | Err (e : positive)        (* -1, errno e *)
 | Data (n : Z).             (* n bytes, 1 <= n <= length offered *)
 
-(* what alloc_cb leaves in *buf *)
+(* what *buf holds when alloc_cb returns.  uv__read does buf = uv_buf_init(NULL, 0) before
+   EVERY alloc_cb call, so an alloc_cb that refuses by not touching *buf is the same as one
+   that stores NULL/0: refusal = base NULL or len 0, whatever the style *)
 Record abuf := mkBuf { b_base : bool;  (* base != NULL *)  b_len : Z }.
 
 (* API calls a read callback may make *)
@@ -179,7 +181,7 @@ Definition refuses (b : abuf) : bool := negb (b_base b) || (b_len b <=? 0).
    the boolean says whether the loop goes on (false = return) *)
 Definition read_iter (E : env) (s : st) : st * list event * bool :=
   let id := nalloc s in
-  let b := allocs E id in                     (* alloc_cb(handle, 64 * 1024, &buf) *)
+  let b := allocs E id in     (* buf = uv_buf_init(NULL, 0); alloc_cb(handle, 64 * 1024, &buf) *)
   let ea := EAlloc id 65536 b in
   let s1 := bump_alloc s in
   if refuses b then
